@@ -17,33 +17,35 @@ const loggerPrefix = "(*github.com/jmsadair/raft/logging.Logger)."
 
 func init() {
 	intercepts = map[string]handler{
-		"(*sync.Mutex).Lock":        icMutexLock,
-		"(*sync.Mutex).Unlock":      icMutexUnlock,
-		"sync.NewCond":              icNewCond,
-		"(*sync.Cond).Wait":         icCondWait,
-		"(*sync.Cond).Broadcast":    icCondSignal,
-		"(*sync.Cond).Signal":       icCondSignal,
-		"(*sync.WaitGroup).Add":     icNop,
-		"(*sync.WaitGroup).Done":    icNop,
-		"(*sync.WaitGroup).Wait":    icNop,
-		"fmt.Errorf":                icErrorf,
-		"fmt.Sprintf":               icSprintf,
-		"fmt.Sprint":                icSprintf,
-		"fmt.Println":               icNop2,
-		"fmt.Printf":                icNop2,
-		"errors.New":                icErrorsNew,
-		"errors.Is":                 icErrorsIs,
+		"(*sync.Mutex).Lock":          icMutexLock,
+		"(*sync.Mutex).Unlock":        icMutexUnlock,
+		"sync.NewCond":                icNewCond,
+		"(*sync.Cond).Wait":           icCondWait,
+		"(*sync.Cond).Broadcast":      icCondSignal,
+		"(*sync.Cond).Signal":         icCondSignal,
+		"(*sync.WaitGroup).Add":       icNop,
+		"(*sync.WaitGroup).Done":      icNop,
+		"(*sync.WaitGroup).Wait":      icNop,
+		"fmt.Errorf":                  icErrorf,
+		"fmt.Sprintf":                 icSprintf,
+		"fmt.Sprint":                  icSprintf,
+		"fmt.Println":                 icNop2,
+		"fmt.Printf":                  icNop2,
+		"errors.New":                  icErrorsNew,
+		"errors.Is":                   icErrorsIs,
 		"(*errors.errorString).Error": func(ex *Exec, fn *ssa.Function, a []Value) Value { return &StrVal{S: "<error>"} },
-		"time.Now":                  icTimeNow,
-		"time.Since":                icTimeSince,
-		"(time.Time).Add":           icTimeAdd,
-		"(time.Time).Before":        icTimeBefore,
-		"(time.Time).After":         icTimeAfter,
-		"(time.Time).Sub":           icTimeSub,
-		"(time.Time).UnixNano":      func(ex *Exec, fn *ssa.Function, a []Value) Value { return a[0].(*Agg).E[1] },
-		"(time.Time).IsZero":        func(ex *Exec, fn *ssa.Function, a []Value) Value { return mkCmp("=", a[0].(*Agg).E[1].(*Term), mkConst(64, 0)) },
-		"time.After":                func(ex *Exec, fn *ssa.Function, a []Value) Value { return &timerChan{} },
-		"time.Sleep":                icNop,
+		"time.Now":                    icTimeNow,
+		"time.Since":                  icTimeSince,
+		"(time.Time).Add":             icTimeAdd,
+		"(time.Time).Before":          icTimeBefore,
+		"(time.Time).After":           icTimeAfter,
+		"(time.Time).Sub":             icTimeSub,
+		"(time.Time).UnixNano":        func(ex *Exec, fn *ssa.Function, a []Value) Value { return a[0].(*Agg).E[1] },
+		"(time.Time).IsZero": func(ex *Exec, fn *ssa.Function, a []Value) Value {
+			return mkCmp("=", a[0].(*Agg).E[1].(*Term), mkConst(64, 0))
+		},
+		"time.After": func(ex *Exec, fn *ssa.Function, a []Value) Value { return &timerChan{} },
+		"time.Sleep": icNop,
 		"(time.Duration).Milliseconds": func(ex *Exec, fn *ssa.Function, a []Value) Value {
 			return mkBin("bvsdiv", a[0].(*Term), mkConst(64, 1000000))
 		},
